@@ -108,7 +108,7 @@ def check(repo: Repo, R) -> None:
         def ok(s, *a, **k): pass
         def bad(s, *a, **k): pass
         def floor(s, *a, **k): pass
-    c18.check(repo, _Re(R))
+    R.run(c18.check, repo, _Re(R))
 
     # ---- 5 instance targets
     rule = "C06.5-instance-targets"
@@ -117,7 +117,7 @@ def check(repo: Repo, R) -> None:
     ds = au.dispatch_defaults(fi.node, "inst.of")
     falls = bool(ds) and all(au.raises(d) for d in ds)
     R.check(inst <= h and falls, rule, key_of(fi, "dispatch"), fi.site, f"export_instance dispatches over {sorted(h)} ⊇ Instantiable {sorted(inst)}; anything else raises: {falls}", why="an instance of an unhandled target kind is exported without a module reference")
-    c13.ideal_primitives(repo, R, "C06.5-instance-targets")
+    R.run(c13.ideal_primitives, repo, R, "C06.5-instance-targets")
     PHYS, IDEAL = "inst.of.prim.primtype == PrimitiveType.PHYSICAL", "inst.of.prim.primtype == PrimitiveType.IDEAL"
     phys = any(shared.cond_match(fi.node, c, PHYS, True, use_prov=False) for c, _b in pat.find("pinst.module.external.domain = 'hdl21.primitives'", fi.node)) and any(shared.cond_match(fi.node, c, PHYS, True, use_prov=False) for c, _b in pat.find("pinst.module.external.name = inst.of.prim.name", fi.node))
     mapped = [(c, b) for c, b in pat.find("pinst.module.external.name = $D[inst.of.prim.name]", fi.node) if shared.cond_match(fi.node, c, IDEAL, True, use_prov=False)]
@@ -172,18 +172,18 @@ def check(repo: Repo, R) -> None:
     own = all(_assigned(f"self.{a}", ("dict()", "{}")) for a in ("modules_by_id", "modules_by_name", "ext_modules")) and _assigned("self.pkg", ("vckt.Package(domain=domain or '')",))
     R.check(not mut and fresh and own, rule, f"{F_EXPORT}::module-state", F_EXPORT, f"no module-level mutable state in the exporter ({not mut}{'' if not mut else ': ' + str(mut)}); each to_proto call builds its own ProtoExporter ({fresh}) with its own maps and package ({own})",
             why="a second to_proto call returns modules of the first one (or refuses names it has seen before)")
-    c13.no_value_memo(repo, R, rule)
+    R.run(c13.no_value_memo, repo, R, rule)
     fxp = repo.func(F_EXPORT, "ProtoExporter.export")
     ok = any(isinstance(n, ast.For) and ast.unparse(n.iter) == "self.tops" and bool(pat.find("self.export_module(m)", n)) for n in au.walk_no_nested(fxp.node))
     R.check(ok, rule, key_of(fxp), fxp.site, f"every top-level module is exported: {ok}", why="some tops are missing from the package")
     from . import c02, c03, c08
-    c02.dispatch_completeness(repo, shared.Retag(R, lambda r, k: "C06.10-every-connected-object-is-owned" if "check_connectable" in k else None,
+    R.run(c02.dispatch_completeness, repo, shared.Retag(R, lambda r, k: "C06.10-every-connected-object-is-owned" if "check_connectable" in k else None,
                                                  "a signal that was never added to the module (or belongs to another one) passes the ownership check inside a slice, concatenation or anonymous bundle: the package names an undeclared signal"), noreturn_set(repo))
-    c08.check(repo, shared.Retag(R, lambda r: "C06.9-failed-visit-never-exported" if r.startswith("C08.3") else None,
+    R.run(c08.check, repo, shared.Retag(R, lambda r: "C06.9-failed-visit-never-exported" if r.startswith("C08.3") else None,
                                  "a module on which a checking pass failed is exported by the next call (the failure was not recorded, the checks are cached as done): the package is ill-formed"))
-    c03.slice_inner(repo, shared.Retag(R, lambda r: "C06.7-targets-stay-inside-widths" if "index-bounds" in r else None,
+    R.run(c03.slice_inner, repo, shared.Retag(R, lambda r: "C06.7-targets-stay-inside-widths" if "index-bounds" in r else None,
                                        "a connection target names a bit outside its signal (e.g. bus[w] exported as slice [w:w] of a w-bit bus)"), "C02")
-    c02.live_passes(repo, shared.Retag(R, lambda r: "C06.8-post-flattening-checks-live",
+    R.run(c02.live_passes, repo, shared.Retag(R, lambda r: "C06.8-post-flattening-checks-live",
                                        "the flattened design is exported without its final connection checks: instances with unconnected or mis-sized ports reach the package"))
     R.floor("C06.1-definition-before-use", 5)
     R.floor("C06.5-instance-targets", 16)
